@@ -298,12 +298,35 @@ def _prim_class(t):
     return getattr(_PN["P"], R.MESSAGE_TYPES[t].service.replace("-", "_"))
 
 
+_STUB = {}
+
+
 def _select_message_class(prim):
-    """The rule of DIMSEServiceProvider.send_msg (dimse.py)."""
-    D = _PN["D"]
-    if prim.MessageIDBeingRespondedTo is None:
-        return D._RQ_TO_MESSAGE[prim.__class__]
-    return D._RSP_TO_MESSAGE[prim.__class__]
+    """The message class the REAL DIMSEServiceProvider.send_msg builds for this primitive (observed through
+    EVT_DIMSE_SENT on an unstarted, socket-less Association whose DUL queue is drained afterwards) - the rule is
+    executed, not replicated."""
+    if "assoc" not in _STUB:
+        from pynetdicom import AE, evt
+        from pynetdicom.association import Association
+        ae = AE()
+        assoc = Association(ae, "requestor")
+        assoc.acceptor.maximum_length = 0
+        seen = []
+        for h in list(assoc.get_handlers(evt.EVT_DIMSE_SENT)):   # the logging handlers may raise on unusual values
+            assoc.unbind(evt.EVT_DIMSE_SENT, h[0])
+        assoc.bind(evt.EVT_DIMSE_SENT, lambda event: seen.append(type(event.message)))
+        _STUB.update(assoc=assoc, seen=seen)
+    assoc, seen = _STUB["assoc"], _STUB["seen"]
+    del seen[:]
+    try:
+        assoc.dimse.send_msg(prim, 1)
+    finally:
+        q = assoc.dul.to_provider_queue
+        while not q.empty():
+            q.get(False)
+    if not seen:
+        raise RuntimeError("send_msg did not announce a message (EVT_DIMSE_SENT not triggered)")
+    return seen[-1]
 
 
 def norm(kw, v):
